@@ -29,6 +29,9 @@ CORPUS = os.path.join(VERIF, "corpus/C17")
 CHUNK = 1500
 
 
+CRASH_TOTAL = [0]
+
+
 def run_janet(janet, cases, workdir, tag, timeout=300):
     """Run cases (list of (id, case)) in one janet process; on a crash continue after the crashing case.
     Returns {id: line-without-id} and a list of crash records."""
@@ -62,6 +65,10 @@ def run_janet(janet, cases, workdir, tag, timeout=300):
             crashes.append({"id": None, "rc": rc, "stderr": se.decode(errors="replace")[-1500:]})
             break
         cid, c = todo[got]
+        CRASH_TOTAL[0] += 1
+        if len(crashes) >= 6 or CRASH_TOTAL[0] > 60:
+            # the tree is badly broken for this chunk; enough evidence, do not restart the interpreter hundreds of times
+            break
         crashes.append({"id": cid, "case": L.line(c), "janet": L.janet_case(cid, c), "rc": rc,
                         "stderr": se.decode(errors="replace")[-1500:], "timeout": rc is None})
         todo = todo[got + 1:]
@@ -176,7 +183,7 @@ def evaluate(ctx, janet, exe, cases, workdir, tag):
     chunks = [runnable[i:i + CHUNK] for i in range(0, len(runnable), CHUNK)]
     impl, crashes = {}, []
     with cf.ThreadPoolExecutor(16) as ex:
-        futs = [ex.submit(run_janet, janet, ch, workdir, "%s-%d" % (tag, k), 120) for k, ch in enumerate(chunks)]
+        futs = [ex.submit(run_janet, janet, ch, workdir, "%s-%d" % (tag, k), 60) for k, ch in enumerate(chunks)]
         for fu in futs:
             o, cr = fu.result()
             impl.update(o)
@@ -326,13 +333,14 @@ def _run(ctx, quick, broken, exe, janet, workdir):
         for kind, detail in judge(rec):
             (oracle_fail if kind == "oracle" else model_fail).append((rec, detail))
     # ---- report
+    os.makedirs(ctx.replay_dir, exist_ok=True)   # (scratch output directories can be purged by concurrent runs)
     seen_sigs = set()
     for cr in crashes:
         if cr["id"] is None:
             continue
         c = cases[cr["id"]]
         sig = "crash:" + c[0] + ":" + crash_shape(c)
-        if sig in seen_sigs:
+        if sig in seen_sigs or sum(1 for x in seen_sigs if x.startswith("crash:" + c[0] + ":")) >= 2 or len(seen_sigs) > 12:
             continue
         seen_sigs.add(sig)
         ctx.violation(sig, {"kind": "crash", "case": cr["case"], "janet": cr["janet"], "rc": cr["rc"], "stderr": cr["stderr"]},
